@@ -64,6 +64,9 @@ def recursive_contract(direction, dense=False):
     c2 = copy.copy(c)
     rep = lambda x: x.replace("tf_", "t")
     c2.requires = [rep(r) for r in c.requires if r != "tf_ == t" and not r.startswith("tf_ > self.__t") and not r.startswith("tf_ < self.__t")]
+    # the contract is the one proved for events None / no callbacks / no progress bar: the recursive call must be made that way (the
+    # sub-steps that land on a terminal event are not iterations of the caller's loop: its callbacks are not invoked for them, C20)
+    c2.requires += ["callback is None", "events is None", "eta == False"]
     # status: 1 after a normal return (it was not 2 before), the caller overwrites it
     c2.ensures = [rep(r) for r in c.ensures if "self.__int_status == 1" not in r]
     c2.ensures_exc = [rep(r) for r in c.ensures_exc if "self.__int_status is exc" not in r]
@@ -285,6 +288,19 @@ def verify_integrate_events(src, reg, prop, n=1, terminals=(False,), direction=1
                "implies(not end_int, forall(lambda i: implies(n_ev0 <= i and i < len(E_V), not %s)))".replace("E_V", EV) % is_term(EV + "[i].ev"),
                "implies(end_int, %s)" % TERMINAL]
     c.loops = {0: {"invariant": inv + ev_inv + sol_inv + lo_inv + end_inv + list(extra_inv), "on_iteration_end": iteration_end}}
+    # the pruning loop `for _ in range(__pre_length - 1): self.__sol.remove_interpolant(oldest)`, cut by its own invariant (any number of
+    # pieces): the dense-output invariant survives every removal, one piece goes per iteration, the newest piece stays where it is
+    do_here = [x.replace("self.", SOL + ".") for x in inv_do]
+    newest_now = ("len(%s.t_eval) - 1" % SOL) if direction > 0 else "0"
+    c.loops[2] = {"cut": True,
+                  "let": {"prune_len0": "len(%s.t_eval)" % SOL, "prune_newest_key": "%s.t_eval[%s]" % (SOL, newest_now), "prune_newest_id": "%s.y_interpolants[%s].id" % (SOL, newest_now),
+                          "prune_newest_t0": "%s.y_interpolants[%s].t0" % (SOL, newest_now)},
+                  "invariant": do_here + [
+                      # (the step's own piece is still there, or was dropped by the terminal branch: __pre_length + 1 or __pre_length pieces on entry)
+                      "len(%s.t_eval) == prune_len0 - iter_index and (prune_len0 == __pre_length + 1 or prune_len0 == __pre_length)" % SOL,
+                      "0 <= iter_index and iter_index <= ite(__pre_length >= 1, __pre_length - 1, 0)",
+                      "%s.t_eval[%s] == prune_newest_key and %s.y_interpolants[%s].id == prune_newest_id and %s.y_interpolants[%s].t0 == prune_newest_t0" % (
+                          SOL, newest_now, SOL, newest_now, SOL, newest_now)]}
     c.requires = c.requires + sol_inv + ["n_ev0 == len(%s)" % EV, "len(%s) >= 0" % EV,
                                          ("tf_ > self.__t[self.counter]" if direction > 0 else "tf_ < self.__t[self.counter]")]
     c.ghost = dict(c.ghost, n_ev0="Int")
@@ -383,14 +399,23 @@ def job_events(reg, src, prop, n, terminals, direction, callbacks=0, outcomes=No
     return dict(ex.stats)
 
 
-def event_jobs(prop, n, terminals, direction):
+def event_jobs(prop, n, terminals, direction, dense=False):
     """the jobs that together verify one configuration"""
     if n < 2:
-        return [dict(fn="props.integrate_events:job_events", label="%s/%s" % (prop, config_label(n, terminals, direction)), kwargs=dict(prop=prop, n=n, terminals=list(terminals), direction=direction))]
+        return [dict(fn="props.integrate_events:job_events", label="%s/%s" % (prop, config_label(n, terminals, direction, 0, dense)),
+                     kwargs=dict(prop=prop, n=n, terminals=list(terminals), direction=direction, dense=dense))]
     jobs = []
     for k, part in enumerate(outcome_partition(n, terminals)):
-        jobs.append(dict(fn="props.integrate_events:job_events", label="%s/%s#part%d" % (prop, config_label(n, terminals, direction), k),
-                         kwargs=dict(prop=prop, n=n, terminals=list(terminals), direction=direction, outcomes=[list(o) if not isinstance(o, str) else o for o in part], part=k)))
+        jobs.append(dict(fn="props.integrate_events:job_events", label="%s/%s#part%d" % (prop, config_label(n, terminals, direction, 0, dense), k),
+                         kwargs=dict(prop=prop, n=n, terminals=list(terminals), direction=direction, dense=dense, outcomes=[list(o) if not isinstance(o, str) else o for o in part], part=k)))
+    return jobs
+
+
+def recursive_jobs(prop, configs):
+    """integrate's own contract in the forms the recursive call uses it, one proof per (dense, direction) that occurs"""
+    jobs = [dict(fn="props.integrate_events:job_recursive", label=prop + "/integrate[no-events]", kwargs=dict(prop=prop))]
+    for (dense, d) in sorted({(c[3], c[2]) for c in configs if c[3] and any(c[1])}):
+        jobs.append(dict(fn="props.integrate_events:job_recursive", label="%s/integrate[no-events,dense,%s]" % (prop, "forward" if d > 0 else "backward"), kwargs=dict(prop=prop, dense=True, direction=d)))
     return jobs
 
 
